@@ -1,5 +1,7 @@
 import YarlProofs.C03
 import YarlProofs.C03Reach
+import YarlProofs.C03Netloc
+import YarlProofs.C03Idn
 /-!
   C03Headline.lean — AUDIT LAYER for property C03.
 
@@ -12,17 +14,26 @@ import YarlProofs.C03Reach
   Vocabulary (C03Reach.lean, Lemmas/ReachFix.lean, Lemmas/FixLemmas.lean):
   `ReachC e u`   — "every URL the library produces": `Reach` of C01 (constructor, build(encoded=False), the 19
                    operations, join) where a `join` reference must satisfy `CanonUrl`.
-  `NetlocCanon e u` — "syntactically valid host": the stored netloc is empty (and no cache), or is
+  `NetlocCanon e u` — "syntactically valid host", STORED side: the stored netloc is empty (and no cache), or is
                    `[user[:password]@]host[:port]` with REQUOTER-canonical non-empty user / password
-                   (`UserInfoOK`), a host that `_encode_host` maps to itself (`HostFix`: reg-name, IPv4, IPv6,
-                   see hostFix_basic / hostFix_ipv4 / hostFix_ipv6), port ≤ 65535, and a consistent cache.
+                   (`UserInfoOK`), a host that `_encode_host` maps to itself (`HostFix`: every lower-case
+                   host text without ':' — reg-names, also digit-ending or dot-ending ones, IPv4 —, IPv6
+                   with or without zone id, sane A-labels: C03_headline_stored_host_families), port ≤ 65535, and
+                   a consistent cache.  It is DERIVED from the input for the constructor, `build` and
+                   `with_host` (C03_headline_valid_host_constructor / _build / _with_host below).
+  `HostTextOK h`, `AuthInput o n`, `BuildNetOK e a`, `ReachV e u` (Lemmas/NetShape.lean, C03Netloc.lean) —
+                   "syntactically valid host", INPUT side: spelled out in C03_headline_valid_host_text_spec and in
+                   the doc comments of the theorems that use them.
+  `IdnaAnswerSane a`, `IdnaSaneAt o h`, `IdnHostInput o h` (C16Idn.lean) — the ASSUMPTION about the third-party
+                   `idna` package (an oracle of the model) under which the IDN statements hold, see the section
+                   "IDN hosts" below.
   `SchemeOK' sc` — "RFC-valid scheme": empty, or non-empty lower-case `Gen.schemeChars` (a leading digit is allowed,
                    as in `split_url`).
   `C03Guards u`  — the two recorded exclusions F-C03-colon and F-C03-rootless.
 -/
 set_option linter.unusedVariables false
 namespace Yarl
-open ReachFix
+open ReachFix FixLemmas NetShape NetlocLemmas HostLemmas HumanLemmas
 
 /-! ## Sentence 1a — "For every URL the library produces from valid input (RFC-valid scheme, syntactically valid
     host), parsing str(url) again yields a URL with an identical string form" -/
@@ -31,7 +42,8 @@ open ReachFix
 theorem C03_headline_identical_string_form (e : Env) (u : Url)
     (hreach : ReachC e u)             -- join references canonical: C03_joinRef_wf_not_enough
     (hnet : NetlocCanon e u)          -- valid host; excludes F-C03-bracket, F-C03-empty-authority (…_fails_for_* below)
-                                      -- and inconsistent records (C03_inconsistent_cache_counterexample)
+                                      -- and inconsistent records (C03_inconsistent_cache_counterexample);
+                                      -- derived from the INPUT in C03_headline_valid_host_constructor / _build
     (hscheme : SchemeOK' u.scheme)    -- "RFC-valid scheme" of the property text
     (hguards : C03Guards u) :         -- F-C03-colon (C03_guard_first_segment_needed), F-C03-rootless
                                       -- (C03_guard_authority_scheme_needed)
@@ -74,7 +86,8 @@ theorem C03_headline_identical_stored_path (e : Env) (u : Url) (hreach : ReachC 
   C03_fixed_point_same_path e u (C03_reachable_canon e u hreach) hnet hscheme hguards hpath
 
 /-- — in which case it is FALSE: URL('http://a?b') stores "", str writes "http://a/?b", the re-parse stores "/"
-    (the two are `==` and have the same raw_path, but raw_parts differ).  Not in KNOWN_FINDINGS (equality holds). -/
+    (the two are `==` and have the same raw_path, but raw_parts differ).  No C03 entry in KNOWN_FINDINGS (equality
+    holds); the related F-C07-empty-path (property C07: raw_path is '/' where str() writes nothing) cites this theorem. -/
 theorem C03_headline_identical_stored_path_fails_for :
     let e : Env := ⟨.py, Oracles.empty⟩
     ∃ u u', encodeUrl e "http://a?b".toStr = .ok u ∧ Basic u ∧ u.path = [] ∧
@@ -100,6 +113,25 @@ theorem C03_headline_identical_netloc_fails_for_default_port :
       str e u' = str e u ∧ Url.beq u' u = false ∧
       explicitPort e u = .ok (some 80) ∧ explicitPort e u' = .ok none :=
   C03_default_port_counterexample
+
+/-- "parsing str(url) again yields a URL … identical" read as `URL(str(u)) == u` (closes GAPS 7): for EVERY
+    reachable URL the re-parsed URL has the same stored netloc, the same `==`/hash key (`eqKey`: scheme, netloc,
+    path with "" ~ "/" under an authority, query, fragment) and is `==` (`Url.beq`) EXACTLY when no explicit
+    default port is stored (`NoDefaultPort e u`, C03Netloc.lean, is literally the condition written out below;
+    the `←` direction is C03_headline_identical_netloc, the `→` direction generalises
+    C03_headline_identical_netloc_fails_for_default_port).  Proved from C03_fixed_point_eq (C03Netloc.lean). -/
+theorem C03_headline_equal_iff_no_default_port (e : Env) (u : Url)
+    (hreach : ReachC e u)             -- join references canonical: C03_joinRef_wf_not_enough
+    (hnet : NetlocCanon e u)          -- valid host (derived from the input: C03_headline_valid_host_* below)
+    (hscheme : SchemeOK' u.scheme)    -- "RFC-valid scheme" of the property text
+    (hguards : C03Guards u) :         -- F-C03-colon, F-C03-rootless
+    ∃ s u', str e u = .ok s ∧ encodeUrl e s = .ok u' ∧ str e u' = .ok s ∧
+      (u'.netloc = u.netloc ↔ ∀ p, explicitPort e u = .ok (some p) → some p ≠ defaultPort u.scheme) ∧
+      (eqKey u' = eqKey u ↔ ∀ p, explicitPort e u = .ok (some p) → some p ≠ defaultPort u.scheme) ∧
+      (Url.beq u' u = true ↔ ∀ p, explicitPort e u = .ok (some p) → some p ≠ defaultPort u.scheme) := by
+  obtain ⟨s, u', h1, h2, h3, _, _, _, _, h8, h9, h10, _⟩ :=
+    C03_fixed_point_eq e u (C03_reachable_canon e u hreach) hnet hscheme hguards
+  exact ⟨s, u', h1, h2, h3, h8, h9, h10⟩
 
 /-! ### the guards are needed — the four KNOWN FINDINGS of C03 -/
 
@@ -174,33 +206,344 @@ theorem C03_headline_op_sequence (e : Env) (s : Str) (ops : List UOp) (u v : Url
     C03_op_sequence_fixed_point e s ops u v h1 h2 h3 h4 h5 h6 h7
   exact ⟨t, v', a1, a2, a3, a4, a5, a6, a7, a9, a10, a11, a12⟩
 
+/-! ### "valid input … syntactically valid host" as a condition on the INPUT (closes GAPS 1, 2 ASCII part)
+
+  C03Netloc.lean derives `NetlocCanon` from the input text.  Vocabulary:
+  `HostTextOK h`  — a supported ASCII host text as it stands in the input, in ANY letter case (spelled out in the
+                    next theorem);
+  `AuthInput o n` — the input authority `n` is empty, or `split_netloc` accepts it, it names a host with
+                    `HostTextOK`, and a host that is no IPv6 literal is not written in brackets (written out in
+                    C03_headline_valid_host_constructor);
+  `BuildNetOK e a` — the arguments of `build`: `authority=` a Python string with `AuthInput`; `user=` /
+                    `password=` Python strings; `host=` ASCII (it is validated by `build` itself);
+  `ReachV e u`    — `ReachC` with the entry points restricted to such inputs: constructor on a Python string whose
+                    authority has `AuthInput`; `build(encoded=False)` with `BuildArgsPy` and `BuildNetOK`; the 19
+                    operations with `UOp.ArgsCanon` and `UOp.NetArgs`; `join` of two such URLs. -/
+
+/-- `HostTextOK h`, written out: `h` is non-empty; WITHOUT ':' it is visible ASCII with none of `/ ? # @ [ ]`
+    (reg-names in any case, also ending in a digit or a dot, IPv4 literals; '%' is allowed — the constructor does
+    not validate); WITH ':' the part before the first '%' is an IPv6 literal in any spelling `ipaddress` accepts
+    and the zone id after it is visible ASCII with none of `/ ? # @ [ ]`. -/
+theorem C03_headline_valid_host_text_spec (h : Str) :
+    HostTextOK h ↔
+      h ≠ [] ∧
+      (58 ∉ h → ∀ c ∈ h, 33 ≤ c ∧ c < 128 ∧ c ≠ 47 ∧ c ≠ 63 ∧ c ≠ 35 ∧ c ≠ 64 ∧ c ≠ 91 ∧ c ≠ 93) ∧
+      (58 ∈ h → ∃ h8, parseIPv6 (partition 37 h).1 = some h8 ∧
+         ∀ c ∈ (partition 37 h).2.2, 33 ≤ c ∧ c < 128 ∧ c ≠ 47 ∧ c ≠ 63 ∧ c ≠ 35 ∧ c ≠ 64 ∧ c ≠ 91 ∧ c ≠ 93) := by
+  have tc : ∀ c : Nat, textChar c = true ↔
+      (33 ≤ c ∧ c < 128 ∧ c ≠ 47 ∧ c ≠ 63 ∧ c ≠ 35 ∧ c ≠ 64 ∧ c ≠ 91 ∧ c ≠ 93) := by
+    intro c
+    unfold textChar
+    simp
+    omega
+  constructor
+  · intro hk
+    refine ⟨hk.ne, fun h58 c hc => (tc c).1 (nameChar_text (hk.name h58 c hc)), fun h58 => ?_⟩
+    obtain ⟨h8, h6, hz⟩ := hk.ipv6 h58
+    exact ⟨h8, h6, fun c hc => (tc c).1 (hz c hc)⟩
+  · rintro ⟨hne, hn, h6⟩
+    refine ⟨hne, fun h58 c hc => ?_, fun h58 => ?_⟩
+    · have h1 := (tc c).2 (hn h58 c hc)
+      have hc58 : c ≠ 58 := fun h => h58 (h ▸ hc)
+      unfold nameChar
+      simp [h1, hc58]
+    · obtain ⟨h8, h6', hz⟩ := h6 h58
+      exact ⟨h8, h6', fun c hc => (tc c).2 (hz c hc)⟩
+
+/-- the host kinds of GAPS 2 on the INPUT side (`nameChar` = visible ASCII, none of `/ ? # @ [ ] :`;
+    `textChar` = the same with ':' allowed): reg-name in any case (incl. ending in a digit: "h1", "example.com1",
+    "1.2.3.4.5"), trailing dot, IPv4 literal, IPv6 literal in any accepted spelling, IPv6 literal with zone id.
+    NOT covered: IPvFuture / other bracketed non-IPv6 text (GAPS 2), non-ASCII hosts (section "IDN hosts"). -/
+theorem C03_headline_valid_host_kinds :
+    (∀ h : Str, h ≠ [] → (∀ c ∈ h, nameChar c = true) → HostTextOK h) ∧
+    (∀ h : Str, (∀ c ∈ h, nameChar c = true) → HostTextOK (h ++ [46])) ∧
+    (∀ (h : Str) (o4 : List Nat), parseIPv4 h = some o4 → HostTextOK h) ∧
+    (∀ (h : Str) (h8 : List Nat), 37 ∉ h → parseIPv6 h = some h8 → HostTextOK h) ∧
+    (∀ (a z : Str) (h8 : List Nat), 37 ∉ a → parseIPv6 a = some h8 → (∀ c ∈ z, textChar c = true) →
+      HostTextOK (a ++ 37 :: z)) :=
+  ⟨fun _ hne hch => C03_host_regname hne hch, fun _ hch => C03_host_trailing_dot hch,
+   fun _ _ h4 => C03_host_ipv4 h4, fun _ _ h37 h6 => C03_host_ipv6 h37 h6,
+   fun _ _ _ h37 h6 hz => C03_host_ipv6_zone h37 h6 hz⟩
+
+/-- the host families of GAPS 2 on the STORED side: `HostFix o h` (= `_encode_host(h)` is `h` again, in brackets
+    when it contains ':') holds for EVERY non-empty lower-case host text without ':' (`hostChar` = visible ASCII, no
+    upper-case letter, none of `/ ? # : @ [ ]` — this subsumes hostFix_basic, whose clause "does not end in a
+    digit" is not needed, hostFix_ipv4 and the trailing dot), for the compressed text of an IPv6 address with a
+    zone id, and for every sane A-label text (`IdnaAnswerSane a`: non-empty and `NOT_REG_NAME` finds nothing; no
+    assumption about the `idna` package is needed for THIS clause, the text is ASCII).
+    IPv6 without zone: hostFix_ipv6 (Lemmas/FixLemmas.lean), as before. -/
+theorem C03_headline_stored_host_families (o : Oracles) :
+    (∀ h : Str, h ≠ [] → (∀ c ∈ h, hostChar c = true) → HostFix o h) ∧
+    (∀ h : Str, (∀ c ∈ h, hostChar c = true) → HostFix o (h ++ [46])) ∧
+    (∀ (h8 : List Nat) (z : Str), h8.length = 8 → (∀ x ∈ h8, x < 65536) → (∀ c ∈ z, textChar c = true) →
+      HostFix o (ipv6ToStr h8 ++ 37 :: z)) ∧
+    (∀ a : Str, IdnaAnswerSane a → HostFix o a) :=
+  ⟨fun _ hne hch => C03_hostFix_lower o hne hch, fun _ hch => C03_hostFix_trailing_dot o hch,
+   fun h8 z hl hx hz => C03_hostFix_ipv6_zone o h8 hl hx z hz, fun a ha => C03_idn_hostFix_answer o a ha⟩
+
+/-- the link between the two sides: what `_encode_host` returns for a supported input host text (validation off:
+    constructor, `build(authority=)`), and for ANY accepted non-empty ASCII argument with validation on
+    (`build(host=)`, `with_host`), is the bracketed form of a `HostFix` host -/
+theorem C03_headline_encode_host_valid (o : Oracles) (h0 r : Str) :
+    (HostTextOK h0 → encodeHost o h0 false = .ok r → ∃ h, r = bracket h ∧ HostFix o h ∧ (58 ∈ h ↔ 58 ∈ h0)) ∧
+    (isAscii h0 = true → h0 ≠ [] → encodeHost o h0 true = .ok r → ∃ h, r = bracket h ∧ HostFix o h) :=
+  ⟨fun hk he => C03_encodeHost_hostFix o hk he, fun ha hne he => C03_encodeHost_hostFix_validated o ha hne he⟩
+
+/-- GAPS 1, constructor: for a Python string `s` that `split_url` splits into `pt`, whose authority is empty, or is
+    accepted by `split_netloc` and names a supported host text `h0` (`AuthInput e.o pt.netloc`, written out),
+    the constructor result has a valid stored authority AND an RFC-valid (or empty) scheme — the scheme needs no
+    hypothesis, `split_url` only cuts off a valid one.  User and password need no hypothesis either (sub-strings
+    of the Python string `s`). -/
+theorem C03_headline_valid_host_constructor (e : Env) (s : Str) (u : Url) (pt : Parts)
+    (hs : PyStr s)                            -- "valid input": a Python string (no code point > 0x10FFFF)
+    (hu : encodeUrl e s = .ok u)              -- the constructor accepts it
+    (hpt : splitUrl e.o s = .ok pt)           -- names the input authority `pt.netloc`
+    (ha : pt.netloc = [] ∨ ∃ np h0, splitNetloc e.o pt.netloc = .ok np ∧ np.host = some h0 ∧ HostTextOK h0 ∧
+      (58 ∉ h0 → 91 ∉ (rpartition 64 pt.netloc).2.2)) : -- supported host; the bracket clause excludes members of
+                                              -- F-C03-bracket: C03_headline_valid_host_fails_for_bracketed_ipv4
+    NetlocCanon e u ∧ SchemeOK' u.scheme :=
+  ⟨C03_encodeUrl_netlocCanon e s u pt hs hu hpt ha, C03_encodeUrl_scheme e s u hs hu⟩
+
+/-- GAPS 1, `build(encoded=False)`: with `BuildNetOK e a` (`authority=` a Python string with `AuthInput`, `user=` /
+    `password=` Python strings, `host=` ASCII — ANY accepted ASCII host, `build` validates it) the result has a
+    valid stored authority and never stores an explicit default port -/
+theorem C03_headline_valid_host_build (e : Env) (a : BuildArgs) (u : Url)
+    (henc : a.encoded = false)                -- the auto-encoding entry point (encoded=True: GAPS 6)
+    (hok : BuildNetOK e a)                    -- "valid input" for the authority arguments, see above
+    (hb : build e a = .ok u) :                -- build accepts
+    NetlocCanon e u ∧ ∀ p, explicitPort e u = .ok (some p) → some p ≠ defaultPort u.scheme :=
+  ⟨C03_build_netlocCanon e a u henc hok hb, C03_build_noDefaultPort e a u henc hok hb⟩
+
+/-- GAPS 1, `with_host`: EVERY non-empty ASCII argument satisfies the side condition `UOp.NetArgs` of
+    C03_headline_op_sequence (written out: whatever `_encode_host(s, validate_host=True)` returns is the bracketed
+    form of a `HostFix` host) -/
+theorem C03_headline_valid_host_with_host (e : Env) (s : Str)
+    (ha : isAscii s = true)                   -- non-ASCII arguments: C03_headline_idna_with_host
+    (hne : s ≠ []) :                          -- with_host('') is rejected by the library anyway
+    ∀ eh, encodeHost e.o s true = .ok eh → ∃ host, eh = bracket host ∧ HostFix e.o host :=
+  C03_withHost_netArgs e s ha hne
+
+/-- "For every URL the library produces [with the constructor] from valid input … parsing str(url) again yields a
+    URL with an identical string form and identical scheme, user, password, host, port, path, query and fragment",
+    hypotheses on the INPUT TEXT only, plus the two recorded exclusions on the result.  Includes `==`: equal
+    exactly when no explicit default port is stored. -/
+theorem C03_headline_constructor_fixed_point (e : Env) (s : Str) (u : Url) (pt : Parts)
+    (hs : PyStr s) (hu : encodeUrl e s = .ok u) (hpt : splitUrl e.o s = .ok pt) -- as in …_valid_host_constructor
+    (ha : AuthInput e.o pt.netloc)            -- written out in C03_headline_valid_host_constructor
+    (hg : C03Guards u) :                      -- F-C03-colon, F-C03-rootless (…_fails_for_colon_in_first_segment,
+                                              -- …_fails_for_rootless_path_authority_scheme)
+    ∃ t u', str e u = .ok t ∧ encodeUrl e t = .ok u' ∧ str e u' = .ok t ∧ u'.scheme = u.scheme ∧
+      u'.path = C07_strPath u ∧ u'.query = u.query ∧ u'.fragment = u.fragment ∧
+      (u'.netloc = u.netloc ↔ ∀ p, explicitPort e u = .ok (some p) → some p ≠ defaultPort u.scheme) ∧
+      (eqKey u' = eqKey u ↔ ∀ p, explicitPort e u = .ok (some p) → some p ≠ defaultPort u.scheme) ∧
+      (Url.beq u' u = true ↔ ∀ p, explicitPort e u = .ok (some p) → some p ≠ defaultPort u.scheme) ∧
+      port e u' = port e u ∧ rawHost e u' = rawHost e u ∧ rawUser e u' = rawUser e u ∧
+      rawPassword e u' = rawPassword e u ∧ CanonUrl e.b u' ∧ NetlocCanon e u' :=
+  C03_constructor_fixed_point e s u pt hs hu hpt ha hg
+
+/-- … [with `build(encoded=False)`]: `BuildArgsPy a` (path / query / fragment are Python strings), `BuildNetOK e a`,
+    and a `scheme=` of scheme characters IN ANY CASE (`SchemeChars`: every character is in `Gen.schemeChars`; the
+    empty scheme included) — since fix e21485a `build` stores the scheme lower-case (`u.scheme = lower a.scheme`),
+    so the scheme hypothesis is on the ARGUMENT.  Here `URL(str(u)) == u` holds unconditionally (`build` never
+    stores a default port). -/
+theorem C03_headline_build_fixed_point (e : Env) (a : BuildArgs) (u : Url)
+    (henc : a.encoded = false)                -- the auto-encoding entry point (encoded=True: GAPS 6)
+    (hpy : BuildArgsPy a)                     -- "valid input": Python strings
+    (hok : BuildNetOK e a)                    -- "syntactically valid host" on the arguments
+    (hsch : ∀ c ∈ a.scheme, mem c Gen.schemeChars = true) -- "RFC-valid scheme", any letter case
+    (hb : build e a = .ok u)
+    (hg : C03Guards u) :                      -- F-C03-colon, F-C03-rootless
+    ∃ t u', str e u = .ok t ∧ encodeUrl e t = .ok u' ∧ str e u' = .ok t ∧ u'.scheme = u.scheme ∧
+      u'.path = C07_strPath u ∧ u'.query = u.query ∧ u'.fragment = u.fragment ∧
+      u'.netloc = u.netloc ∧ eqKey u' = eqKey u ∧ Url.beq u' u = true ∧
+      port e u' = port e u ∧ rawHost e u' = rawHost e u ∧ rawUser e u' = rawUser e u ∧
+      rawPassword e u' = rawPassword e u ∧ CanonUrl e.b u' ∧ NetlocCanon e u' ∧ u.scheme = lower a.scheme :=
+  C03_build_fixed_point e a u henc hpy hok hsch hb hg
+
+/-- "For every URL the library produces from valid input (RFC-valid scheme, syntactically valid host) …": every
+    URL reachable from valid input (`ReachV`, see the vocabulary above) -/
+theorem C03_headline_reachable_from_valid_input (e : Env) (u : Url)
+    (hr : ReachV e u)                         -- produced from valid input (no hypothesis on the stored authority)
+    (hs : SchemeOK' u.scheme)                 -- "RFC-valid scheme" (automatic for constructor results and for build
+                                              -- with `SchemeChars`; asked of `u` because with_scheme / join also write it)
+    (hg : C03Guards u) :                      -- F-C03-colon, F-C03-rootless
+    ∃ t u', str e u = .ok t ∧ encodeUrl e t = .ok u' ∧ str e u' = .ok t ∧ u'.scheme = u.scheme ∧
+      u'.path = C07_strPath u ∧ u'.query = u.query ∧ u'.fragment = u.fragment ∧
+      (u'.netloc = u.netloc ↔ ∀ p, explicitPort e u = .ok (some p) → some p ≠ defaultPort u.scheme) ∧
+      (eqKey u' = eqKey u ↔ ∀ p, explicitPort e u = .ok (some p) → some p ≠ defaultPort u.scheme) ∧
+      (Url.beq u' u = true ↔ ∀ p, explicitPort e u = .ok (some p) → some p ≠ defaultPort u.scheme) ∧
+      port e u' = port e u ∧ rawHost e u' = rawHost e u ∧ rawUser e u' = rawUser e u ∧
+      rawPassword e u' = rawPassword e u ∧ CanonUrl e.b u' ∧ NetlocCanon e u' :=
+  C03_reachable_fixed_point' e u hr hs hg
+
+/-- End to end with input-side hypotheses only: C03_headline_op_sequence without `NetlocCanon e u` -/
+theorem C03_headline_op_sequence_from_valid_input (e : Env) (s : Str) (pt : Parts) (ops : List UOp) (u v : Url)
+    (hs : PyStr s) (hu : encodeUrl e s = .ok u) (hpt : splitUrl e.o s = .ok pt)
+    (ha : AuthInput e.o pt.netloc)            -- written out in C03_headline_valid_host_constructor
+    (hops : ∀ op ∈ ops, op.ArgsCanon e.b ∧ op.NetArgs e) -- arguments Python strings / join references canonical;
+                                              -- with_host: automatic for ASCII (…_valid_host_with_host)
+    (hv : applyOps e u ops = .ok v)
+    (hsch : SchemeOK' v.scheme)               -- "RFC-valid scheme"
+    (hg : C03Guards v) :                      -- F-C03-colon, F-C03-rootless
+    ∃ t v', str e v = .ok t ∧ encodeUrl e t = .ok v' ∧ str e v' = .ok t ∧ v'.scheme = v.scheme ∧
+      v'.path = C07_strPath v ∧ v'.query = v.query ∧ v'.fragment = v.fragment ∧
+      (Url.beq v' v = true ↔ ∀ p, explicitPort e v = .ok (some p) → some p ≠ defaultPort v.scheme) ∧
+      port e v' = port e v ∧ rawHost e v' = rawHost e v ∧ rawUser e v' = rawUser e v ∧
+      rawPassword e v' = rawPassword e v := by
+  obtain ⟨t, v', a1, a2, a3, a4, a5, a6, a7, _, _, a10, a11, a12, a13, a14, _⟩ :=
+    C03_op_sequence_fixed_point' e s pt ops u v hs hu hpt ha hops hv hsch hg
+  exact ⟨t, v', a1, a2, a3, a4, a5, a6, a7, a10, a11, a12, a13, a14⟩
+
+/-- the bracket clause of `AuthInput` is needed — a further member of F-C03-bracket: URL('http://[a:b]@[1.2.3.4]/')
+    is accepted (the bracket check of `split_url` sees "[a:b]" in the userinfo), the host "1.2.3.4" is a supported
+    host text but keeps its brackets, and the string form is REJECTED when read again -/
+theorem C03_headline_valid_host_fails_for_bracketed_ipv4 :
+    let e : Env := ⟨.py, Oracles.empty⟩
+    ∃ u np, encodeUrl e "http://[a:b]@[1.2.3.4]/".toStr = .ok u ∧
+      splitNetloc e.o "[a:b]@[1.2.3.4]".toStr = .ok np ∧ np.host = some "1.2.3.4".toStr ∧
+      HostTextOK "1.2.3.4".toStr ∧ 91 ∈ (rpartition 64 "[a:b]@[1.2.3.4]".toStr).2.2 ∧
+      u.netloc = "%5Ba:b%5D@[1.2.3.4]".toStr ∧ str e u = .ok "http://%5Ba:b%5D@[1.2.3.4]/".toStr ∧
+      encodeUrl e "http://%5Ba:b%5D@[1.2.3.4]/".toStr = .error .valueError :=
+  C03_bracketed_ipv4_counterexample
+
+/-- "none of `[ ]` in the host text" is needed — a further member of F-C03-bracket: URL('http://[a:b@h]/') is
+    accepted, the host is "h]", the string form "http://%5Ba:b@h]/" is REJECTED when read again -/
+theorem C03_headline_valid_host_fails_for_bracket_in_host :
+    let e : Env := ⟨.py, Oracles.empty⟩
+    ∃ u np, encodeUrl e "http://[a:b@h]/".toStr = .ok u ∧
+      splitNetloc e.o "[a:b@h]".toStr = .ok np ∧ np.host = some "h]".toStr ∧
+      u.netloc = "%5Ba:b@h]".toStr ∧ str e u = .ok "http://%5Ba:b@h]/".toStr ∧
+      encodeUrl e "http://%5Ba:b@h]/".toStr = .error .valueError :=
+  C03_bracket_in_host_counterexample
+
+/-! ### IDN hosts (GAPS 2 / 5, "IDNA") — under a stated ASSUMPTION about the `idna` package
+
+  IDNA is an oracle of the model (the answers of the third-party `idna` package and of the stdlib codec are inputs).
+  `IdnaAnswerSane a` — `a` is non-empty and the library's own `NOT_REG_NAME` screen finds nothing in it (lower-case
+  RFC 3986 reg-name text); `IdnaSaneAt o h` — every answer of the oracle for the host `h` is sane (the fallback
+  codec's answer after the `.lower()` the library applies).  This is TRUSTED BASE (C16Idn.lean), not proved. -/
+
+/-- "a second pass of … case folding … IDNA … changes nothing", constructor on `scheme://h/path#fragment` with a
+    non-ASCII host `h` (`IdnHostInput`: non-ASCII, none of `/ ? # TAB LF CR [ ] : @`, passes the NFKC check, the
+    isdigit oracle knows it, no IP literal before a '%'; so NO userinfo, NO port, and NO query in this shape): `u`
+    stores the A-label `a`, and `URL(str(u))` has the same string form, scheme, netloc, path, query, fragment, raw
+    host and `==` key.  The second parse does not reach IDNA (a sane answer is ASCII). -/
+theorem C03_headline_idna_constructor_fixed_point (e : Env) (sc h rp rf : Str)
+    (hsc : SchemeOK sc)                       -- "RFC-valid scheme": non-empty lower-case scheme characters
+    (hi : IdnHostInput e.o h)                 -- the shape of the input host, see above
+    (hs : IdnaSaneAt e.o h)                   -- ASSUMPTION about the idna package (needed: …_idna_fails_for_insane_answer)
+    (h35 : 35 ∉ rp) (h63 : 63 ∉ rp)           -- `rp` is the path text after the first '/': no '#', no '?'
+    (hc1 : Clean rp) (hc2 : Clean rf)         -- no TAB / LF / CR (split_url would strip them)
+    (hpy : PyStr (sc ++ 58 :: 47 :: 47 :: (h ++ (47 :: rp ++ fragTail rf)))) -- a Python string
+    (u : Url) :
+    encodeUrl e (sc ++ 58 :: 47 :: 47 :: (h ++ (47 :: rp ++ fragTail rf))) = .ok u →
+    ∃ a t u', idnaEncode e.o h = .ok a ∧ IdnaAnswerSane a ∧ u.netloc = a ∧ rawHost e u = .ok (some a) ∧
+      str e u = .ok t ∧ encodeUrl e t = .ok u' ∧ str e u' = .ok t ∧ u'.scheme = u.scheme ∧
+      u'.netloc = u.netloc ∧ u'.path = C07_strPath u ∧ u'.query = u.query ∧ u'.fragment = u.fragment ∧
+      rawHost e u' = .ok (some a) ∧ eqKey u' = eqKey u ∧ CanonUrl e.b u' ∧ NetlocCanon e u' :=
+  C03_idn_ctor_fixed_point e sc h rp rf hsc hi hs h35 h63 hc1 hc2 hpy u
+
+/-- ANY authority the library writes around a sane A-label host — userinfo and port included — is a valid stored
+    authority (so every theorem with the hypothesis `NetlocCanon e u` applies to it); no assumption about the
+    package, only about the stored text `a` -/
+theorem C03_headline_idna_valid_host (e : Env) (u : Url) (user pw : Option Str) (a : Str) (port : Option Nat)
+    (hnet : u.netloc = authText user pw a port)   -- the stored authority is [user[:pw]@]a[:port]
+    (hu : UserInfoOK e.b user pw)                 -- user non-empty, user / password REQUOTER-canonical
+    (ha : IdnaAnswerSane a)                       -- the stored host is sane A-label text
+    (hp : ∀ p, port = some p → p ≤ 65535)         -- port in range
+    (hpre : u.pre = none ∨ u.pre = some (preOf user pw a port)) : -- cache empty or consistent
+    NetlocCanon e u :=
+  C03_idn_netlocCanon e u user pw a port hnet hu ha hp hpre
+
+/-- `with_host(h)` with a non-ASCII `h` satisfies the side condition `UOp.NetArgs` of C03_headline_op_sequence
+    (written out).  Validation is on, so the library checks the reg-name screen itself; all that is assumed of the
+    package is a NON-EMPTY answer. -/
+theorem C03_headline_idna_with_host (e : Env) (h : Str)
+    (hna : isAscii h = false)                     -- the IDN case (ASCII: C03_headline_valid_host_with_host)
+    (hip : parseIP (partition 37 h).1 = none)     -- not an IP literal followed by a non-ASCII zone id
+    (hne : ∀ r, idnaEncode e.o h = .ok r → r ≠ []) : -- ASSUMPTION about the idna package: no empty answer
+    ∀ eh, encodeHost e.o h true = .ok eh → ∃ host, eh = bracket host ∧ HostFix e.o host :=
+  C03_idn_withHost_netArgs e h hna hip hne
+
+/-- the assumption is needed at URL level: with an `idna` package that answered "XN--A" (upper case) or "a/b" for
+    the input host of `C16_idn_input` ("http://é/p", C16Idn.lean) the constructor's result is NOT a fixed
+    point — re-parsing `str(u)` changes the netloc, resp. host and path.  (Hypothetical packages, not a finding.) -/
+theorem C03_headline_idna_fails_for_insane_answer :
+    (let e : Env := { b := .c, o := C16_idn_hostile "XN--A".toStr }
+     (encodeUrl e C16_idn_input).map (·.netloc) = .ok "XN--A".toStr ∧
+     (encodeUrl e C16_idn_input).bind (str e) = .ok "http://XN--A/p".toStr ∧
+     (encodeUrl e "http://XN--A/p".toStr).map (·.netloc) = .ok "xn--a".toStr) ∧
+    (let e : Env := { b := .c, o := C16_idn_hostile "a/b".toStr }
+     (encodeUrl e C16_idn_input).map (fun u => (u.netloc, u.path)) = .ok ("a/b".toStr, "/p".toStr) ∧
+     (encodeUrl e C16_idn_input).bind (str e) = .ok "http://a/b/p".toStr ∧
+     (encodeUrl e "http://a/b/p".toStr).map (fun u => (u.netloc, u.path)) = .ok ("a".toStr, "/b/p".toStr)) :=
+  C03_idn_needs_sane
+
 /-
 GAPS:
- 1. `NetlocCanon e u` ("syntactically valid host") is a HYPOTHESIS about the stored netloc, not derived from the
-    input.  For the constructor there is no theorem `encodeUrl e s = .ok u → (input authority well-bracketed,
-    non-empty after normalisation) → NetlocCanon e u`; the reader must exhibit user / password / host / port with
-    `u.netloc = authText …`, `UserInfoOK`, `HostFix` by hand (as the examples in C03.lean / C03Reach.lean do with
-    `decide`).  C03_applyOp_netlocCanon then carries it through modifiers, and for `build` nothing establishes it
-    either (no `build e a = .ok u → NetlocCanon e u`).  This is the main missing link between "valid input" in
-    the property text and the guards of the theorems.
- 2. `HostFix` is proved for three host families only (hostFix_basic: lower-case reg-name not ending in a digit;
-    hostFix_ipv4; hostFix_ipv6 without zone).  Not covered: IDN hosts (A-labels / IDNA oracle — "IDNA" in the
-    idempotence sentence has NO theorem), reg-names ending in a digit, IPv6 with a zone id, IPvFuture /
-    bracketed non-IPv6 text (C03_ipvfuture_fixed is a single example), hosts with a trailing dot.
+ 1. CLOSED (for the ASCII host kinds of item 2) by C03_encodeUrl_netlocCanon, C03_encodeUrl_scheme,
+    C03_build_netlocCanon, C03_withHost_netArgs, C03_constructor_fixed_point, C03_build_fixed_point,
+    C03_reachable_fixed_point', C03_op_sequence_fixed_point' (C03Netloc.lean), see
+    C03_headline_valid_host_constructor / _valid_host_build / _valid_host_with_host,
+    C03_headline_constructor_fixed_point, C03_headline_build_fixed_point,
+    C03_headline_reachable_from_valid_input, C03_headline_op_sequence_from_valid_input.  `NetlocCanon e u` is now
+    DERIVED from the input: for the constructor from "`s` is a Python string, `split_url` gives `pt`, `pt.netloc`
+    is empty or `split_netloc` accepts it and names a host text with `HostTextOK` that is not wrongly bracketed"
+    (the scheme and the userinfo need no hypothesis); for `build(encoded=False)` from `BuildNetOK` (any accepted
+    ASCII `host=`); for `with_host` from "non-empty ASCII argument"; modifiers carry it as before.  The fixed-point
+    theorems are restated with these input-side hypotheses only (plus `C03Guards` and, where with_scheme / join may
+    have written the scheme, `SchemeOK'` of the result).
+    What remains a hypothesis: `split_url` / `split_netloc` succeeding on the concrete input (`hpt`, first clause
+    of `AuthInput`; discharged by `decide` per input; C03 has no theorem over GENERATED text, as C04 has with
+    `composeUrl` / `canonText`);
+    for the operation `joinRef` the side condition is still `NetlocCanon e ref` on the stored reference (a
+    reference that is itself `ReachV` is covered by `ReachV.join`); hosts outside `HostTextOK` (item 2).
+    The bracket side conditions of `AuthInput` are needed: C03_headline_valid_host_fails_for_bracketed_ipv4,
+    C03_headline_valid_host_fails_for_bracket_in_host (further members of F-C03-bracket).
+ 2. PARTLY CLOSED by C03_host_* / C03_hostFix_* / C03_encodeHost_hostFix(_validated) (C03Netloc.lean) and
+    C03_idn_hostFix_answer (C03Idn.lean), see C03_headline_valid_host_text_spec, C03_headline_valid_host_kinds,
+    C03_headline_stored_host_families, C03_headline_encode_host_valid.  Now covered, in ANY letter case on the
+    input side: reg-names incl. those ending in a digit ("h1", "1.2.3.4.5") or in a dot, IPv4, IPv6 in any accepted
+    spelling, IPv6 with a zone id; on the stored side every non-empty lower-case host text without ':' and every
+    sane A-label text satisfy `HostFix`.
+    IDN hosts: proved ONLY under the assumption `IdnaSaneAt` about the `idna` package (item 8), and at input level
+    only for the constructor on the shape `scheme://h/path#fragment` (no userinfo, no port, no query:
+    C03_headline_idna_constructor_fixed_point) and for `with_host` (C03_headline_idna_with_host); for other shapes
+    the reader must exhibit the stored authority (C03_headline_idna_valid_host).  There is NO theorem for
+    `build(host=<IDN>)` (`BuildNetOK` asks an ASCII host) and IDN inputs are not entry points of `ReachV`.
+    STILL OPEN: IPvFuture / bracketed non-IPv6 text (C03_ipvfuture_fixed is a single example; such hosts are not
+    `HostTextOK`).
  3. "identical … port" holds for `port` (effective port).  For `explicit_port` / the stored netloc / `==` it is
     FALSE when an explicit default port was written (C03_headline_identical_netloc_fails_for_default_port).  This
     is recorded as FINDING in C03.lean but is NOT in KNOWN_FINDINGS.jsonl.
+    (Added: the exact condition is now a theorem, C03_headline_equal_iff_no_default_port; KNOWN_FINDINGS has the
+    same root under property C07, F-C07-default-port — witness URL('http://a:80/p') —, still no C03 entry.)
  4. "identical … path" for the STORED path is false for "" in front of '?'/'#' under an authority
     (C03_headline_identical_stored_path_fails_for); `raw_path` and `==` agree, `raw_parts` do not.
- 5. Idempotence is stated as "URL(str(u')) = u'".  The per-mechanism reading of sentence 2 has no dedicated
-    theorems in C03: case folding and IDNA (see gap 2; C16 has encodeHost idempotence), default-port dropping
-    (str-level only, see gap 3), dot-segment removal (C15 has normalizePath idempotence), "decoding" (quoter
-    level: cOut_requote_fixed in Lemmas/Canon.lean).  None of these is linked to C03 at URL level beyond the
-    fixed-point theorem itself.
+ 5. PARTLY CLOSED.  Idempotence is still stated as "URL(str(u')) = u'" (C03_headline_idempotent); there are still no
+    per-mechanism theorems in C03.  What the new theorems add at URL level: CASE FOLDING — the input-side theorems
+    take the host in any letter case (`HostTextOK`) and `build` a scheme in any case (C03_headline_build_fixed_point,
+    `u.scheme = lower a.scheme`), so "folded once, unchanged by the second pass" is part of
+    C03_headline_constructor_fixed_point / _build_fixed_point; DEFAULT-PORT DROPPING — the stored netloc / `==`
+    change in the second pass exactly when an explicit default port is stored
+    (C03_headline_equal_iff_no_default_port), and never after `build` (C03_headline_valid_host_build); IDNA — only
+    under the assumption of item 8 and for the shapes of item 2 (C03_headline_idna_constructor_fixed_point: the
+    second parse takes the ASCII path and does not reach IDNA).  UNCHANGED: dot-segment removal (C15 has
+    normalizePath idempotence) and "decoding" (quoter level: cOut_requote_fixed in Lemmas/Canon.lean) are not
+    linked to C03 beyond the fixed-point theorem itself.
  6. `encoded=True` entry points and `preEncodedUrl` are outside `ReachC` (and outside the property's "valid
     input" only if one reads it so): no fixed-point statement for them.
- 7. Equality `URL(str(u)) == u` (`Url.beq`/`eqKey`) is proved only for direct constructor results
-    (C03_reparse_basic_gen, C03_reparse_authority: `eqKey u' = eqKey u`), not in C03_reachable_fixed_point.
+ 7. CLOSED by C03_fixed_point_eq (C03Netloc.lean), see C03_headline_equal_iff_no_default_port (and the `==`
+    clauses of C03_headline_constructor_fixed_point, _build_fixed_point, _reachable_from_valid_input,
+    _op_sequence_from_valid_input).  For every reachable URL with the hypotheses of C03_headline_identical_string_form,
+    `URL(str(u)) == u` (`Url.beq`, `eqKey`) and "same stored netloc" hold IF AND ONLY IF no explicit default port
+    is stored; after `build(encoded=False)` unconditionally.
+ 8. (new) TRUSTED BASE of the IDN statements: `IdnaSaneAt e.o h` ("every answer of the `idna` package / of the
+    lower-cased stdlib-codec fallback for the host `h` is non-empty lower-case reg-name text") is an ASSUMPTION about
+    a third-party package, stated in C16Idn.lean, not proved and not checked by the differential harness (C16Idn.lean
+    says the check is decidable per run but not implemented).  Without it the fixed point fails
+    (C03_headline_idna_fails_for_insane_answer — hypothetical answers, not observed).  For `with_host` only "the
+    answer is non-empty" is assumed (the library validates the rest itself).
 -/
 
 end Yarl
